@@ -1,6 +1,6 @@
 /-
   C08 — what the functions of the new class see: every function the property talks about is reachable and
-  sees the new class (setters / deleters under the listed known finding K08a).
+  sees the new class (property setters and deleters included, after the K08a repair).
 -/
 import AttrsModel.Proofs.C08Cells
 
@@ -96,10 +96,10 @@ theorem itemParts_key (k : String) (it : Item) (l : Label) (f : Fn) (h : (l, f) 
       | some d' => simp at h; simp [h, itemFns]
 
 /-- **every entry of `calls`**: the function sees the new class, unless it is hidden in an object attrs
-    cannot look into, or it is a setter / deleter (K08a) -/
+    cannot look into -/
 theorem calls_entry (c : Case) (hb : WFBody c) (hw : WFCells c) (l : Label) (v : CellVal)
     (h : (l, v) ∈ calls c) :
-    v = .new ∨ isOpaqueKey c l.1 = true ∨ l.2 = .fset ∨ l.2 = .fdel := by
+    v = .new ∨ isOpaqueKey c l.1 = true := by
   unfold calls at h
   obtain ⟨kv, hkv, hin⟩ := List.mem_flatMap.1 h
   obtain ⟨k, it⟩ := kv
@@ -128,7 +128,7 @@ theorem calls_entry (c : Case) (hb : WFBody c) (hw : WFCells c) (l : Label) (v :
     cases it with
     | plain => simp [itemParts] at hparts
     | «opaque» g =>
-      refine Or.inr (Or.inl ?_)
+      refine Or.inr ?_
       rw [hkey]
       exact List.any_eq_true.2 ⟨(k, .opaque g), hkv, by simp⟩
     | cprop g =>
@@ -157,29 +157,40 @@ theorem calls_entry (c : Case) (hb : WFBody c) (hw : WFCells c) (l : Label) (v :
           simp at hp
           obtain ⟨_, rfl⟩ := hp
           exact Or.inl (seen_new c hw f hall hu
-            (fun i hi => hreached _ (by simpa [entryCells, optIds] using ids_mem f i hi)))
+            (fun i hi => hreached _ (by
+              have := ids_mem f i hi
+              simp only [entryCells, optIds, List.mem_append]
+              exact Or.inl (Or.inl this))))
       · cases s with
         | none => cases hp
-        | some s' => simp at hp; exact Or.inr (Or.inr (Or.inl (by rw [hp.1])))
+        | some s' =>
+          simp at hp
+          obtain ⟨_, rfl⟩ := hp
+          exact Or.inl (seen_new c hw f hall hu
+            (fun i hi => hreached _ (by
+              have := ids_mem f i hi
+              simp only [entryCells, optIds, List.mem_append]
+              exact Or.inl (Or.inr this))))
       · cases d with
         | none => cases hp
-        | some d' => simp at hp; exact Or.inr (Or.inr (Or.inr (by rw [hp.1])))
+        | some d' =>
+          simp at hp
+          obtain ⟨_, rfl⟩ := hp
+          exact Or.inl (seen_new c hw f hall hu
+            (fun i hi => hreached _ (by
+              have := ids_mem f i hi
+              simp only [entryCells, optIds, List.mem_append]
+              exact Or.inr this)))
   · cases hin
 
-/-- without the known finding every entry is new or opaque -/
-theorem calls_all_new (c : Case) (hb : WFBody c) (hw : WFCells c) (hk : staleAccessor c = false) :
+/-- every entry is new or opaque -/
+theorem calls_all_new (c : Case) (hb : WFBody c) (hw : WFCells c) :
     (calls c).all (fun lv => lv.2 == .new || isOpaqueKey c lv.1.1) = true := by
   apply List.all_eq_true.2
   intro lv hlv
   obtain ⟨l, v⟩ := lv
-  rcases calls_entry c hb hw l v hlv with h | h | h | h
+  rcases calls_entry c hb hw l v hlv with h | h
   · simp [h]
   · simp [h]
-  · have := List.any_eq_false.1 hk (l, v) hlv
-    simp [h] at this
-    simp [this]
-  · have := List.any_eq_false.1 hk (l, v) hlv
-    simp [h] at this
-    simp [this]
 
 end Attrs.C08
